@@ -22,7 +22,9 @@ class St:
         return St(self.i, self.flt, self.fresh)
 
 class Peg:
-    def __init__(self, toks, complete, sink=False):
+    def __init__(self, toks, complete, sink=False, sub_skip=True):
+        self.sub_skip = sub_skip    # does a sub-lex mark drop the filtered tokens in front of it? (the real lexer does so
+                                    # unless a look-ahead is buffered: the recorded C05 finding seen through `sub`)
         self.toks = toks            # sequential unfiltered tokens (lexsim.scan_all)
         self.complete = complete    # True iff the scanner accepts the whole text
         self.sink = sink            # is an error sink installed?
@@ -125,7 +127,9 @@ class Peg:
         if k == 'discard':
             _, s1 = self.ev(g[1], s); return 'unit', s1
         if k == 'sub':
-            s = s.copy(); s.fresh = True; self.norm(s)
+            s = s.copy()
+            if self.sub_skip:
+                s.fresh = True; self.norm(s)
             return self.ev(g[1], s)
         if k == 'either':
             try:
@@ -376,12 +380,12 @@ class Peg:
         raise NotCovered('vpred')
 
 
-def reference(text, le, tab, scanner, flt, g, sink=False, runs=1):
+def reference(text, le, tab, scanner, flt, g, sink=False, runs=1, sub_skip=True):
     """list of per-run results: ('ok', value, rest-tokens, flt_is_some, emitted) | ('fail', why, emitted) |
     ('notcovered', why); evaluation stops after the first failure"""
     toks = lexsim.scan_all(text, le, tab, scanner)
     complete = 'bang' not in text
-    p = Peg(toks, complete, sink)
+    p = Peg(toks, complete, sink, sub_skip)
     s = St(0, flt, True)
     p.norm(s)
     out = []
